@@ -207,7 +207,6 @@ def execute(case):
     cot = torch.tensor([round(cr.random() * 2 - 0.5, 3) for _ in range(G.numel(shape))], dtype=torch.float64).reshape(shape)
     cfgs = sorted(case['cfgs'], key=lambda c: bool(c.get('j_precompute')))
     results = []
-    phase1_done = False
     def compare_gradients(results, only_j):
         for sem in ('real', 'log'):
             gs = [(cfg, r) for cfg, r in results if cfg['semiring'] == sem and cfg.get('grad') and 'grads' in r and not r.get('warned')]
@@ -240,13 +239,8 @@ def execute(case):
                               f'd/d{n}: {base_cfg} gives {a.tolist()}, {cfg} gives {b.tolist()}')
                     counters['gradients.compared'] = counters.get('gradients.compared', 0) + 1
 
-    try:
-        for cfg in cfgs:
+    def one_config(cfg):
             cfg = dict(cfg)
-            if cfg.get('j_precompute') and not phase1_done:
-                # everything that does not involve j_precompute is decided first (known finding C11-j_precompute-*)
-                compare_gradients(results, False)
-                phase1_done = True
             if cfg['semiring'] == 'bool':
                 cfg['dtype'] = 'float64'
                 cfg['grad'] = False
@@ -261,7 +255,7 @@ def execute(case):
             if r['exc'] is not None:
                 if cfg['method'] == 'linear' and r['exc'] == 'ValueError' and not lin and 'linearly' in r.get('msg', ''):
                     counters['configs.linear-rejected'] = counters.get('configs.linear-rejected', 0) + 1
-                    continue
+                    return
                 V('config-raises', jp + [cfg['semiring'], cfg['method'], r['exc']] + (['grad'] if cfg.get('grad') else []),
                   f'configuration {cfg} raised {r["exc"]}: {r.get("msg")} while the grammar has a finite sum-product')
             f32 = cfg['dtype'] == 'float32'
@@ -297,8 +291,14 @@ def execute(case):
                         V('value', feats0 + ['viterbi'], f'{cfg}: Viterbi {got.tolist()}, reference {vs.tolist()}')
             results.append((cfg, r))
             log.add('cfg', feats0, np.round(np.where(np.isfinite(got.astype(float)), got.astype(float), -1.0), 5 if f32 else 8).tolist())
-        if not phase1_done:
-            compare_gradients(results, False)
+
+    try:
+        # everything that does not involve j_precompute is decided first -- configurations, their gradients, the
+        # Log-vs-Real gradient relation and the CLI leg -- so that the open finding C11-j_precompute-* masks nothing else
+        for cfg in cfgs:
+            if not cfg.get('j_precompute'):
+                one_config(cfg)
+        compare_gradients(results, False)
         # Log = log(Real) carried over to gradients: d(sum c.log Z)/d(log w) = w * d(sum (c/Z).Z)/dw
         lg = [(cfg, r) for cfg, r in results if cfg['semiring'] == 'log' and cfg.get('grad') and 'grads' in r and not r.get('warned')
               and not cfg.get('j_precompute') and cfg['dtype'] == 'float64']
@@ -363,6 +363,10 @@ def execute(case):
                                   f'grad[{n}] printed {got[n].tolist()}, in-process {a.tolist()}')
                         counters['cli.gradients-compared'] = 1
             log.add('cli', cli['method'], rc)
+        for cfg in cfgs:
+            if cfg.get('j_precompute'):
+                one_config(cfg)
+        compare_gradients(results, True)
         counters['optimize.%d' % sys.flags.optimize] = 1
     except Violation as v:
         viol.append(v.to_json())
